@@ -585,6 +585,9 @@ func (n *nodeInfo) AddOrUpdateNodeMetric(metric *slov1alpha1.NodeMetric, p *podA
 	n.reportInterval = getNodeMetricReportInterval(metric)
 	if metric.Status.UpdateTime != nil {
 		n.updateTime = metric.Status.UpdateTime.Time
+	} else {
+		// do not keep the update time of a previous report for a report that carries none
+		n.updateTime = time.Time{}
 	}
 	n.podUsages, n.prodPods = podUsages, prodPods
 	n.nodeUsage = nodeUsage
